@@ -25,6 +25,7 @@ import (
 var (
 	repo    = flag.String("repo", "/repo", "")
 	pkgs    = flag.String("pkgs", "allocator,ipldutil,messagequeue,notifications,peermanager,persistenceoptions,requestmanager,requestmanager/executor,requestmanager/reconciledloader,responsemanager,responsemanager/queryexecutor,responsemanager/responseassembler,taskqueue,network,impl", "comma separated dirs relative to repo")
+	also    = flag.String("also", "", "comma separated absolute dirs (harness packages) rewritten the same way")
 	extra   = flag.String("extra", "", "dir whose tree is overlaid onto the repo (added files only)")
 	goroot  = flag.String("goroot", "/opt/veriftools/go1.26.8", "GOROOT whose map iteration is made deterministic ('' = skip)")
 	out     = flag.String("out", "", "dir for rewritten files")
@@ -58,6 +59,27 @@ func main() {
 			src := filepath.Join(dir, n)
 			dst := filepath.Join(*out, p, n)
 			if err := rewriteFile(src, dst, filepath.Join(p, n)); err != nil {
+				panic(fmt.Sprintf("%s: %v", src, err))
+			}
+			overlay[src] = dst
+		}
+	}
+	for _, dir := range strings.Split(*also, ",") {
+		if dir == "" {
+			continue
+		}
+		ents, err := os.ReadDir(dir)
+		if err != nil {
+			panic(err)
+		}
+		for _, e := range ents {
+			n := e.Name()
+			if e.IsDir() || !strings.HasSuffix(n, ".go") || strings.HasSuffix(n, "_test.go") {
+				continue
+			}
+			src := filepath.Join(dir, n)
+			dst := filepath.Join(*out, "also", filepath.Base(dir), n)
+			if err := rewriteFile(src, dst, filepath.Join(filepath.Base(dir), n)); err != nil {
 				panic(fmt.Sprintf("%s: %v", src, err))
 			}
 			overlay[src] = dst
@@ -112,6 +134,11 @@ func rewriteFile(src, dst, rel string) error {
 	}
 	usesTimeOther := false
 	r.walk(reflect.ValueOf(f), timeName, &usesTimeOther)
+	for _, im := range f.Imports {
+		if strings.HasSuffix(im.Path.Value, shimRel+"/vsched\"") && (im.Name == nil || im.Name.Name == "vsched") {
+			r.needSched = false
+		}
+	}
 	if r.needSched {
 		addImport(f, "vsched", *modPath+"/"+shimRel+"/vsched")
 	}
